@@ -387,8 +387,10 @@ public:
     std::vector< double > s1, s2;
     state(s1);
     state_in_global_cell_order(*grid, s2);
-    return std::memcmp(a, b, sizeof(a)) == 0 && s1.size() == s2.size() &&
-           std::memcmp(s1.data(), s2.data(), s1.size() * sizeof(double)) == 0;
+    for (int j = 0; j < 5; ++j)
+      if (!(a[j] == b[j]) && !(a[j] != a[j] && b[j] != b[j]))
+        return false;
+    return s1.size() == s2.size() && std::memcmp(s1.data(), s2.data(), s1.size() * sizeof(double)) == 0;
   }
 
   /// One hydro step: reset_hydro_tasks, then execute_task on every task in a
